@@ -251,7 +251,7 @@ func Assign(left, right value.Value) error {
 		case value.IpType: // IP = IP
 			rv := value.Unwrap[*value.IP](right)
 			lv.Value = rv.Value
-			lv.IsNotSet = false
+			lv.IsNotSet = rv.IsNotSet
 		default:
 			return errors.WithStack(fmt.Errorf("invalid assignment for IP type, got %s", right.Type()))
 		}
